@@ -230,6 +230,15 @@ pub fn op<'a, P: ParamGuard>(
     Op { name, unchecked: Box::new(unchecked), checked: Box::new(checked), lift: Box::new(lift) }
 }
 
+/// anyhow errors (argmin) print a captured stack backtrace in their Debug form when
+/// RUST_BACKTRACE is set; the addresses differ per call site and are not part of the error
+pub fn norm(s: String) -> String {
+    match s.find("Stack backtrace") {
+        Some(i) => format!("{}<backtrace elided>", s[..i].trim_end()),
+        None => s,
+    }
+}
+
 fn variant_of(dbg: &str) -> String {
     dbg.chars().take_while(|c| c.is_ascii_alphanumeric() || *c == '_').collect()
 }
@@ -362,14 +371,14 @@ pub fn judge<P: ParamGuard>(
     }
     for op in &ops {
         out.ops_run += 1;
-        let u = guarded(|| (op.unchecked)(&make()));
-        let u2 = guarded(|| (op.unchecked)(&bref));
+        let u = guarded(|| (op.unchecked)(&make()).map_err(norm));
+        let u2 = guarded(|| (op.unchecked)(&bref).map_err(norm));
         if observed_ok {
             let c = match make().check() {
                 Ok(c) => c,
                 Err(_) => continue, // already reported as check_vs_check_ref
             };
-            let v = guarded(|| (op.checked)(&c));
+            let v = guarded(|| (op.checked)(&c).map_err(norm));
             if u != v {
                 out.viols.push(Violation::new(
                     format!("{}.{}.unchecked_differs_from_checked", b, op.name),
@@ -394,7 +403,7 @@ pub fn judge<P: ParamGuard>(
                 Err(e) => e,
                 Ok(_) => continue,
             };
-            let want = (op.lift)(e);
+            let want = norm((op.lift)(e));
             for (form, r) in [("fresh builder", &u), ("builder after check_ref", &u2)] {
                 match r {
                     Err(p) => out.viols.push(Violation::new(
